@@ -123,6 +123,11 @@ DIRN = [".git", ".svn", "CVS", ".hg", ".bzr", "__pycache__", ".tox", ".eggs", "a
         "sub dir", ".hidden", "mod.py", "x[1]", "dür", "build", "gen\\d", "old\\src"]     # a backslash is an ordinary character of a POSIX name (seeded change C11-m12)
 FILN = ["a.py", "b.pyw", "c.txt", "test_x.py", "contest.py", ".hidden.py", "setup.cfg", "noext", "d.PY", "e.py.bak", "x.egg", "w[1].py",
         "sp ace.py", "ü.py", ".py", "py", "__init__.py", "conftest.py", "m.pyw", "cfg\\x.py", "settings.py.in"]
+# names in DECOMPOSED form (as an archive made on macOS holds them), their composed twins (two different files on a normalisation-sensitive file system), compatibility
+# characters: a walked path is reported under the name the file system gave (seeded change C11-m16 NFC-normalised walked paths: the file was then listed under a name
+# that does not exist and skipped by the scan)
+FILN += ["cafe\u0301.py", "caf\u00e9.py", "\u212b.py", "nin\u0303o.py"]
+DIRN += ["re\u0301sume\u0301", "\ufb01les"]
 
 
 _hinted = [False]
